@@ -84,6 +84,14 @@ CHECKS["C09"] = {
             "does not drop a callee's failure. Does not decide that every byte string is classified correctly nor the save-and-reload clause.",
     "note": "termination of the scanners and bounds of header-sized buffers (R11/R25 on loaders) are not yet part of this check",
 }
+CHECKS["C04"] = {
+    "technique": "static happens-before dataflow (loads through the input after stores through an output) over every vnaconv_* CFG; z0-use and store-once counts",
+    "text": "Decides, for all 90 vnaconv_* functions, the aliasing clause (no load through the input matrix can follow a store through an output on any path, with "
+            "the affine index exception of the *zin functions; no callee receives input and output together), that both reference impedances are read (2x2) or z0 "
+            "is indexed per port (n-port), and that each 2x2 output element is stored exactly once. Does not decide any formula, n-port/2-port agreement or "
+            "round-trip equality (values).",
+    "note": "only the parameter matrix is treated as possibly aliased with the outputs, as the property states; z0 is assumed distinct",
+}
 NOT_APPLICABLE = {
     "C14": "YAML fidelity of arbitrary scalars/keys depends on libyaml's emitter/scanner behaviour on run-time strings; no clause is visible in libvna's source shape (DESIGN.md section 3, C14)",
 }
